@@ -1,4 +1,4 @@
 SPECIFICATION SpecE
 CONSTANT Tier = "thorough"
-INVARIANTS VLawsOK SubgroupSE3 SubgroupSO3 PrincipalOK SE2LawOK
+INVARIANTS VLawsOK SubgroupSE3 SubgroupSO3 PrincipalOK SE2LawOK HomC
 CHECK_DEADLOCK FALSE
